@@ -30,7 +30,7 @@ func init() {
 			"partitioned by key, against a register model with an 'absent' state; a write that returned an error is a no-op in the model (so a later read of its unique value makes the history " +
 			"illegal); a final read of every key pins 'exactly once'. Many short histories. Every 9th case is an I/O-fault run instead ('a write that reports an error took no effect'): a child " +
 			"process runs a sequential put/delete/batch/transaction program with synchronous logging while strace -e inject fails chosen fsync(2)/write(2) calls on the database files with EIO/ENOSPC; it journals " +
-			"which units were acknowledged and which returned an error and dumps a full scan before closing; the scan before close and the scan after a reopen must equal the model of the acknowledged units only. distinct = hash of the per-key call/return event order; non-trivial = >= 1 pair of overlapping operations " +
+			"which units were acknowledged and which returned an error and dumps a full scan before closing; the scan before close and the scan after a reopen must equal the model of the acknowledged units only.  Every 45th case is the staged rotation race (background flush parked behind its table snapshot, writer parked inside WAL.Append between record write and sync, flush released, writer released, rotation held back): a write that then reports an error must not show up, neither at once nor after a restart. distinct = hash of the per-key call/return event order; non-trivial = >= 1 pair of overlapping operations " +
 			"on one key and >= 1 rotation inside the history",
 		Assumptions: []string{"Close concurrent with other calls is out of scope", "porcupine timeout (20s per history) => inconclusive"},
 		NumCases: func(tier string) int {
@@ -379,7 +379,7 @@ func init() {
 			"acknowledged unit (identified by its unique value ids) must carry a sequence strictly greater than every earlier acknowledged unit, entries of one batch share one number, file order " +
 			"= sequence order. (2) crash recoveries: a child is killed at PRNG hook sites, after recovery the next write must be stamped above everything in the log. (3) concurrent histories " +
 			"(C06 workload): for every pair of successful writes with A.return < B.call, seq(A) < seq(B), sequences read back from the log through the unique values. " +
-			"distinct = hash(config, op kinds / event order); non-trivial = >= 1 rotation or restart between sampled writes",
+			"Further kinds: torn newest log file in 40% of the post-crash cases; retention at the acknowledged sequence followed by a restart (1/24); staged batch-vs-rotation schedule (1/48); 40% of the concurrent puts go through the batch path. distinct = hash(config, op kinds / event order); non-trivial = >= 1 rotation or restart between sampled writes",
 		Assumptions: []string{"a restart after the log was retired completely restarts the counter (known limitation recorded as finding D36); everywhere else the oracle is strict"},
 		NumCases: func(tier string) int {
 			if tier == "thorough" {
